@@ -78,7 +78,19 @@ def check_encode_case(ptype, nsp, id, data, stats, bad):
         bad('C01/promotion', f'type became {pkt.packet_type}, spec {ft}',
             case)
         return
+    # encoding is a function of the packet: the same packet encoded again
+    # (a server re-sends one packet object to many recipients) yields the
+    # same frames, whatever the caller did to the first result
+    first = pkt.encode()
+    keep = list(first) if isinstance(first, list) else first
+    if isinstance(first, list):
+        first.append('poison')
+        first.reverse()
     enc = pkt.encode()
+    if (list(enc) if isinstance(enc, list) else enc) != keep:
+        bad('C01/encode-twice', f'second encode() of the same packet gave '
+            f'{enc!r}, the first {keep!r}', case)
+        return
     if isinstance(enc, list):
         frame, got_atts = enc[0], enc[1:]
         if ft not in (rc.BINARY_EVENT, rc.BINARY_ACK):
